@@ -1,9 +1,16 @@
 -- Root of the `O2P` library: models, generated facts, property theorems.
+import O2P.Props.C01
+import O2P.Props.C02
+import O2P.Props.C03
+import O2P.Props.C04
+import O2P.Props.C05
+import O2P.Props.C07
 import O2P.Props.C08
 import O2P.Props.C09
 import O2P.Props.C10
 import O2P.Props.C11
 import O2P.Props.C12
 import O2P.Props.C13
+import O2P.Props.C14
 import O2P.Props.C15
 import O2P.Props.C16
